@@ -307,8 +307,14 @@ def run_config(chk, ctx, name):
     chk.ob("P1.child-derivation-found", xf.key + tag, len(child) >= 1, "child seed/identifier derivation call not found in the level loop of %s" % xf.path, where=xf.loc())
     for b, t, g in child[:1]:
         leaf_e = ex.of_operand(t["args"][1])
-        ok = any(x[0] == "bin" and x[1] == "Sub" and ("const", 1) in (x[2], x[3]) for x in expr.walk(leaf_e)) and \
-            any(x[0] == "field" and x[2] in ("used_leafs_index",) for x in expr.walk(leaf_e))
+        # the argument must BE the parent's leaf counter (a copy / borrow of `keys[i-1].<leaf index field>`), not a function of it:
+        # any arithmetic on the way (masking, modulo, truncation) lets two parent leaves share one child tree
+        root = leaf_e
+        while isinstance(root, tuple) and root[0] in ("ref", "deref", "copy"):
+            root = root[1]
+        is_field = isinstance(root, tuple) and root[0] == "field" and root[2] in ("used_leafs_index",)
+        idx_ok = is_field and any(x[0] == "bin" and x[1] == "Sub" and ("const", 1) in (x[2], x[3]) for x in expr.walk(root[1]))
+        ok = is_field and idx_ok
         chk.ob("P1.child-derived-from-parent-current-leaf", xf.key + tag, ok,
                "the child tree's seed/identifier is not derived from level i-1's current leaf index: %s" % (leaf_e,), where=xf.loc(b))
         # the derivation depends on both parameters
@@ -667,6 +673,18 @@ def is_local(f, a, l):
     return False
 
 
+def ots_key_binding(chk, F, tag):
+    """G3: the one-time private key elements are H(I || q || i || 0xff || SEED) - every chain start is bound to the tree, the
+    leaf and the chain (reference preimage OTSKEY of the HL engine); without I/q in the preimage all leaves of a tree, or equal
+    leaves of sibling trees, share their one-time secrets."""
+    from . import hlref
+    S, sessions = hlref.analyse_sessions(F)
+    hlref.presence(chk, sessions, {"OTSKEY": 1, "PRNG": 1}, tag, "G3")
+    bad = [(f.path, r) for f, end, b, st, items, cls, r in sessions if not cls and ("keygen" in f.path or "seed_derive" in f.path)]
+    chk.ob("G3.key-derivation-preimages-are-reference-preimages", "derivation" + tag, not bad,
+           "a key-derivation hash input is not a reference preimage: %s" % bad[:1])
+
+
 def run(chk, ctx):
     chk.explanation = (
         "Counter discipline is decided structurally: every write to the counter field in the crate is enumerated and classified "
@@ -682,6 +700,7 @@ def run(chk, ctx):
     configs = ["default"] if ctx.tier == "quick" else ["default", "std", "verbose", "fast_verify"]
     for name in configs:
         run_config(chk, ctx, name)
+        ots_key_binding(chk, ctx.facts(name), "" if name == "default" else "[%s]" % name)
     chk.floor("counter_write_sites", 5)
     chk.floor("decomposition_uses", 2)
     chk.floor("key_counter_assignments", 2)
